@@ -68,8 +68,22 @@ impl<'a> Class<'a> {
         if let Some(r) = f(self) {
             Some(r)
         } else {
-            self.base_classes()
-                .find_map(|r| r.and_then(|c| f(&c).transpose()).transpose())
+            // An unresolvable super class shouldn't hide the other super classes. The error
+            // is reported only if nothing is found.
+            let mut first_err = None;
+            for r in self.base_classes() {
+                match r {
+                    Ok(c) => {
+                        if let Some(r) = f(&c) {
+                            return Some(r);
+                        }
+                    }
+                    Err(e) => {
+                        first_err.get_or_insert(e);
+                    }
+                }
+            }
+            first_err.map(Err)
         }
     }
 
@@ -83,17 +97,26 @@ impl<'a> Class<'a> {
         if self == base {
             Some(Ok(()))
         } else {
-            self.base_classes()
-                .find_map(|r| r.map(|c| (&c == base).then_some(())).transpose())
+            // see find_map_self_and_base_classes() for the error handling
+            let mut first_err = None;
+            for r in self.base_classes() {
+                match r {
+                    Ok(c) if &c == base => return Some(Ok(())),
+                    Ok(_) => {}
+                    Err(e) => {
+                        first_err.get_or_insert(e);
+                    }
+                }
+            }
+            first_err.map(Err)
         }
     }
 
     pub fn common_base_class(&self, other: &Class<'a>) -> Option<Result<Class<'a>, TypeMapError>> {
         // quadratic, but the inheritance chain should be short
         self.find_map_self_and_base_classes(|cls| {
-            other
-                .is_derived_from_pedantic(cls)
-                .map(|r| r.map(|()| cls.clone()))
+            // error in the other inheritance chain means "not a base of the other" here
+            matches!(other.is_derived_from_pedantic(cls), Some(Ok(()))).then(|| Ok(cls.clone()))
         })
     }
 
